@@ -13,12 +13,14 @@ VI = "FteikVerif.Proofs.GenEquivVInterp"
 ST = "FteikVerif.Proofs.GenStructure"
 RE = "FteikVerif.Proofs.GenReal"
 GS = "FteikVerif.Proofs.GenSolver"
+L2 = "FteikVerif.Proofs.GenEquivLoops2"
+L3 = "FteikVerif.Proofs.GenEquivLoops3"
 SRCS = "FteikVerif.Props.SourceSolver"
 SRCI = "FteikVerif.Props.SourceInterp"
 SRCV = "FteikVerif.Props.SourceVInterp"
 
-SOLVER2 = ["Fteik.gen_tAna", "Fteik.gen_tAnad", "Fteik.gen_delta", "Fteik.gen_sweep2", "Fteik.gen_norm2d"]
-SOLVER3 = ["Fteik.gen_tAna3", "Fteik.gen_tAnad3", "Fteik.gen_sweep3", "Fteik.gen_norm3d"]
+SOLVER2 = ["Fteik.gen_tAna", "Fteik.gen_tAnad", "Fteik.gen_delta", "Fteik.gen_sweep2", "Fteik.gen_norm2d", "Fteik.gen_sweep2d"]
+SOLVER3 = ["Fteik.gen_tAna3", "Fteik.gen_tAnad3", "Fteik.gen_sweep3", "Fteik.gen_norm3d", "Fteik.gen_sweep3d"]
 STRUCT = ["Fteik.gen_sweep2_min_form", "Fteik.gen_sweep2_nonInc", "Fteik.gen_sweep3_min_form",
           "Fteik.gen_sweep3_nonInc"]
 GRADI = ["Fteik.gen_sweep2_grad_indep", "Fteik.gen_sweep2_nograd_sgn", "Fteik.gen_sweep3_grad_indep",
@@ -35,13 +37,13 @@ KV = ["V2._vinterp2d", "V3._vinterp3d", "Common.dist2d", "Common.dist3d", "Commo
 # property -> (modules, theorems, kernels)
 TABLE = {
     # operator formulas: full equivalence with the hand model the algebraic theorems are about
-    "C01": ([S2, S3, RE, SRCS], SOLVER2 + SOLVER3 + ["Fteik.farLaw_real", "Fteik.Source_C01_t_ana_eq_dist",
+    "C01": ([S2, S3, L2, L3, RE, SRCS], SOLVER2 + SOLVER3 + ["Fteik.farLaw_real", "Fteik.Source_C01_t_ana_eq_dist",
                                   "Fteik.Source_C01_t_ana3_eq_dist", "Fteik.Source_C01_delta_exact"], K2 + K3),
-    "C02": ([S2, S3, RE], SOLVER2 + SOLVER3 + ["Fteik.farLaw_real"], K2 + K3),
-    "C04": ([S2, ST, RE], SOLVER2 + STRUCT[:2] + ["Fteik.farLaw_real"], K2),
-    "C05": ([S2, S3, RE, SRCS], SOLVER2 + SOLVER3 + ["Fteik.farLaw_real", "Fteik.Source_C05_sweep_slowness",
+    "C02": ([S2, S3, L2, L3, RE], SOLVER2 + SOLVER3 + ["Fteik.farLaw_real"], K2 + K3),
+    "C04": ([S2, L2, ST, RE], SOLVER2 + STRUCT[:2] + ["Fteik.farLaw_real"], K2),
+    "C05": ([S2, S3, L2, L3, RE, SRCS], SOLVER2 + SOLVER3 + ["Fteik.farLaw_real", "Fteik.Source_C05_sweep_slowness",
                                   "Fteik.Source_C05_sweep_length"], K2 + K3),
-    "C18": ([S2, S3, IN, RE], SOLVER2 + SOLVER3 + INTERP + ["Fteik.farLaw_real"], K2 + K3 + KI),
+    "C18": ([S2, S3, L2, L3, IN, RE], SOLVER2 + SOLVER3 + INTERP + ["Fteik.farLaw_real"], K2 + K3 + KI),
     # the whole solvers as translated: decision logic of the domain check, vzero
     "C03": ([GS], GENSOLVER, ["F2.fteik2d", "F3.fteik3d"]),
     "C13": ([GS], GENSOLVER, ["F2.fteik2d", "F3.fteik3d"]),
